@@ -51,32 +51,30 @@ contract(CT + 'ct_lsb_prop_u16', params={'val': T.int()}, mode='bv', width=40, r
 # ---------------------------------------------------------------------------
 # plain specification (from the property statement / RFC 5246 6.2.3.2, RFC 6101 5.2.3.2)
 
-def spec_hdr(ns, ms):
-    """MAC input header: seq || type || [version] || u16(ms)"""
-    parts = [ns.seqnumBytes, S.byte(ns.contentType)]
-    return parts
-
-
-def spec_ok(ns):
-    data = ns.data
+def spec_ok_vals(data, key, ds, seqnumBytes, contentType, version, block_size):
+    """Plain specification: `data` ends in a padding the version allows,
+    preceded by the correct MAC (keyed by `key`, `ds` bytes) of the rest."""
     L = S.len_(data)
-    ds = ns.f(ns.mac, 'digest_size')
-    key = ns.f(ns.mac, 'key')
     p = data[L - 1]
     ms = L - 1 - p - ds                       # where the MAC starts if the body is well formed
-    is_ssl3 = (ns.version == (3, 0))
+    is_ssl3 = (version == (3, 0))
     pad_ok = S.ite(is_ssl3,
-                   p <= ns.block_size,                                    # SSLv3: at most one block
+                   p <= block_size,                                       # SSLv3: at most one block
                    S.forall(lambda k: data[k] == p, L - 1 - p, L - 1))    # TLS: all pad bytes equal p
-    hdr_tls = S.cat(ns.seqnumBytes, S.byte(ns.contentType), S.byte(ns.version[0]), S.byte(ns.version[1]),
+    hdr_tls = S.cat(seqnumBytes, S.byte(contentType), S.byte(version[0]), S.byte(version[1]),
                     S.byte(ms / 256), S.byte(ms % 256), data[0:ms])
-    hdr_ssl = S.cat(ns.seqnumBytes, S.byte(ns.contentType), S.byte(ms / 256), S.byte(ms % 256), data[0:ms])
+    hdr_ssl = S.cat(seqnumBytes, S.byte(contentType), S.byte(ms / 256), S.byte(ms % 256), data[0:ms])
     tag_tls = S.mac_digest(key, hdr_tls)
     tag_ssl = S.mac_digest(key, hdr_ssl)
     mac_ok = S.ite(is_ssl3,
                    S.forall(lambda j: data[ms + j] == tag_ssl[j], 0, ds),
                    S.forall(lambda j: data[ms + j] == tag_tls[j], 0, ds))
     return S.And(L >= ds + 1, p + 1 + ds <= L, pad_ok, mac_ok)
+
+
+def spec_ok(ns):
+    return spec_ok_vals(ns.data, ns.f(ns.mac, 'key'), ns.f(ns.mac, 'digest_size'), ns.seqnumBytes,
+                        ns.contentType, ns.version, ns.block_size)
 
 
 def _div(a, b):
